@@ -14,7 +14,7 @@ EXPLANATION = (
     "not the node's own; SamplingWindow::report_heartbeat is only called from there; the (id, heartbeat) pair reported comes "
     "from one digest entry; (R11.2) the first accepted report only sets last_heartbeat, an interval is appended iff a previous "
     "report exists and the interval is <= max_interval, phi is None while no interval is recorded; (R11.3) the dead branch "
-    "resets the window, reset clears the intervals but keeps last_heartbeat; (R11.4) catch-up is not evidence (= C18/R18.4). "
+    "resets the window, reset clears the intervals but keeps last_heartbeat; (R11.4) catch-up is not evidence (= C18/R18.4); (R11.5) who may change a sampling window: SamplingWindow::reset is called only from update_node_liveness, samples are recorded only through the guarded report path, and the window / statistics fields are written only by their own methods (a second reset site, e.g. on catch-up, would flag a steadily heartbeating member dead). "
     "The accuracy bound (steady heartbeats never flagged) is a lemma over the checked formula shape (C10/R10.2), not a check.")
 TRUSTED = ["lemma: intervals in [a,b], b <= max_interval => mean >= min(a, prior) => phi <= b/min(a, prior) (paper argument)"]
 ASSUMPTIONS = ["timing of evaluations and floating-point rounding are not analysed",
@@ -32,6 +32,7 @@ def run(ctx):
     r11_1(ctx, rep, roles)
     r11_2(ctx, rep, roles)
     r11_3(ctx, rep, roles)
+    r11_5(ctx, rep, roles)
     r11_4(ctx, rep, roles)
 
 
@@ -270,3 +271,41 @@ def r11_4(ctx, rep, roles):
     r = rep.rule("R11.4", "catch-up is not evidence (no call path from catch-up to the heartbeat sinks)")
     from . import c18
     c18.r18_4(ctx, rep, roles, roles.catchup)
+
+
+BAS = "failure_detector::BoundedArrayStats"
+
+
+def r11_5(ctx, rep, roles, P="C11"):
+    r = rep.rule("R11.5", "who may change a sampling window: reset only from the dead branch of update_node_liveness, samples only from "
+                          "the guarded report path, fields only by the window's own methods")
+    fx = ctx.fx
+    cg = callgraph.CallGraph(fx)
+    # callee role -> the only functions allowed to call it (by role), read off the pinned tree and confirmed by hand
+    MAY_CALL = [
+        ("sw_reset", roles.sw_reset, {roles.fd_update_node_liveness["id"]}, "a reset outside the dead branch discards the intervals of a live member"),
+        ("sw_report_heartbeat", roles.sw_report_heartbeat, {roles.fd_report_heartbeat["id"]}, "samples are recorded only behind the freshness guard"),
+        ("fd_report_heartbeat", roles.fd_report_heartbeat, {roles.report_heartbeat["id"]}, "single guarded path into the failure detector (R11.1)"),
+        ("fd_update_node_liveness", roles.fd_update_node_liveness, {roles.update_nodes_liveness["id"]}, "evaluation only from the liveness pass"),
+    ]
+    n = 0
+    for nm, callee, allowed, why in MAY_CALL:
+        callers = {fx.root_fn(c.caller) for c in cg.callers_of(callee["id"])}
+        n += len(callers)
+        extra = sorted(callers - allowed)
+        rep.obligation(not extra and callers, P + "/R11.5/caller/%s" % nm, "%s is also called from %s (%s)" % (callee["id"], extra or "nowhere", why),
+                       where(callee), sample="%s <- %s" % (nm, sorted(x.split("::")[-1] for x in allowed)))
+    OWN = [(SW, "intervals"), (SW, "last_heartbeat"), (BAS, "sum"), (BAS, "index"), (BAS, "is_filled"), (BAS, "values")]
+    for adt, fl in OWN:
+        ws = {fx.root_fn(s.fn) for s in inv.field_writes(fx, adt, fl) if s.kind in ("assign", "mutborrow", "calldest")}
+        foreign = sorted(w for w in ws if not w.startswith(adt + "::"))
+        n += len(ws)
+        rep.obligation(not foreign and ws, P + "/R11.5/field/%s.%s" % (adt.split("::")[-1], fl), "%s.%s is written by %s" % (adt, fl, foreign or "nobody"), None,
+                       sample="%s.%s written only by %s methods" % (adt.split("::")[-1], fl, adt.split("::")[-1]))
+    ws = {fx.root_fn(s.fn) for s in inv.field_writes(fx, FD, "node_samples") if s.kind in ("assign", "mutborrow", "calldest")}
+    allowed = {roles.fd_garbage_collect["id"], roles.fd_get_or_create_window["id"], roles.fd_update_node_liveness["id"]}
+    rep.obligation(ws <= allowed | {w for w in ws if w.endswith("FailureDetector::new")}, P + "/R11.5/field/node_samples",
+                   "FailureDetector.node_samples is mutably reached from %s" % sorted(ws - allowed), None,
+                   sample="node_samples: garbage_collect (remove), get_or_create_sampling_window (insert), update_node_liveness (get_mut)")
+    rep.floor("window-mutation-sites", n, 14)
+    rep.instance(n)
